@@ -116,7 +116,7 @@ v1 / v2 / v3 files and arbitrary well-formed record sets (`WFRecords`); it canno
 hypotheses on the records: with the same record id twice in a section the later record replaces the
 earlier one while the links of both stay, so the result does depend on the order
 (`C08_duplicate_record_id_counterexample`). -/
-theorem C08_record_order_partial (fv : Nat) (f g : RawFacts) (h : FileOK fv f) (hp : FactsPerm f g) :
+theorem C08_record_order_decoded (fv : Nat) (f g : RawFacts) (h : FileOK fv f) (hp : FactsPerm f g) :
     FileOK fv g ∧ decodeRaw fv (encBody fv g) = .ok (projFacts fv g) ∧
     FactsPerm (projFacts fv f) (projFacts fv g) ∧
     decodeBytes (encodeRaw fv g) = Onto.loadFacts fv (projFacts fv g) := by
